@@ -41,12 +41,13 @@ def showRows (rows : List (List Nat)) : String :=
 def tab (xs : List String) : String := "\t".intercalate xs
 def clean (s : String) : String := String.ofList (s.toList.map (fun c => if c == '\t' || c == '\n' then ' ' else c))
 
-def runOnce (f : Flat) (xres : Bool) (init : List (String × Nat)) (events : List (List (String × Nat))) (obs : List String) :
-    Except String (List (List Nat) × Option Nat) := do
-  let s ← mkSim f xres
+def runOnce (f : Flat) (xres : Bool) (init : List (String × Nat)) (events : List (List (String × Nat))) (obs : List String)
+    (shiftArith : Bool := false) : Except String (List (List Nat) × Option Nat) := do
+  let s ← mkSim f xres shiftArith
   runTraceC s init events obs
 
-def handleRun (text : String) (init : List (String × Nat)) (events : List (List (String × Nat))) (obs : List String) : String :=
+def handleRun (text : String) (init : List (String × Nat)) (events : List (List (String × Nat))) (obs : List String)
+    (shiftArith : Bool := false) : String :=
   match parse text with
   | .error (ln, msg) => tab ["parse=error", s!"line={ln}", s!"msg={msg}"]
   | .ok d =>
@@ -59,10 +60,10 @@ def handleRun (text : String) (init : List (String × Nat)) (events : List (List
         let missing := obs.filter (fun n => !(f.wires.any (·.1 == n)))
         if !missing.isEmpty then tab ["eval=error", s!"msg=no such wire: {clean (toString missing)}"]
         else
-          match runOnce f false init events obs with
+          match runOnce f false init events obs shiftArith with
           | .error e => tab ["eval=error", s!"msg={clean e}"]
           | .ok (t0, c0) =>
-            match runOnce f true init events obs with
+            match runOnce f true init events obs shiftArith with
             | .error e => tab ["eval=error", s!"msg={clean e}"]
             | .ok (t1, c1) =>
               -- the first event with a cross-clock write collision under either resolution (-1: none)
@@ -79,6 +80,11 @@ def handle (line : String) : String :=
   | some (.list [.atom "run", .atom text, .list (.atom "init" :: is), .list (.atom "events" :: es), .list (.atom "obs" :: os)]) =>
     match parsePairs is, es.mapM parseEvent, os.mapM atomS with
     | some init, some events, some obs => handleRun text init events obs
+    | _, _, _ => "error=bad-arguments"
+  -- the same with `$shift` of a signed operand read as an arithmetic shift: attribution of finding F27 only
+  | some (.list [.atom "run27", .atom text, .list (.atom "init" :: is), .list (.atom "events" :: es), .list (.atom "obs" :: os)]) =>
+    match parsePairs is, es.mapM parseEvent, os.mapM atomS with
+    | some init, some events, some obs => handleRun text init events obs true
     | _, _, _ => "error=bad-arguments"
   | _ => "error=bad-request"
 
